@@ -255,8 +255,10 @@ static int app_send(int sty, int ok) {
   return 1;
 }
 
+static int block_mode_on = 0;   /* env C07_BLOCK_MODE=1: contexts run with COAP_BLOCK_USE_LIBCOAP */
 static void client_setup(const coap_address_t *server, int maxr, int mid0, long long tok0) {
   cli = coap_new_context(NULL);
+  if (block_mode_on) coap_context_set_block_mode(cli, COAP_BLOCK_USE_LIBCOAP);
   coap_register_response_handler(cli, on_resp);
   coap_register_nack_handler(cli, on_nack);
   cs = vn_new_client(cli, server);
@@ -723,6 +725,7 @@ static void do_exe(void) {
   coap_address_t server;
   if (kind_real) {
     srv = coap_new_context(NULL);
+    if (block_mode_on) coap_context_set_block_mode(srv, COAP_BLOCK_USE_LIBCOAP);
     ep = vn_new_server_ep(srv);
     if (!ep) { puts("ERROR no endpoint"); exit(2); }
     for (int k = 0; k < 5; k++) {
@@ -834,6 +837,7 @@ int main(void) {
   coap_startup();
   coap_set_log_level(COAP_LOG_EMERG);
   setvbuf(stdout, NULL, _IOLBF, 0);
+  block_mode_on = getenv("C07_BLOCK_MODE") && atoi(getenv("C07_BLOCK_MODE")) != 0;
   while (next_case(stdin)) {
     if (vntok == 0) { puts(""); continue; }
     alarm(40);                       /* wall-clock guard per case (SIGALRM ends the process) */
